@@ -82,7 +82,8 @@ type Sim struct {
 	parked    []*Task // sorted by spawn path
 	arrived   []*Task // parked since the last quiescent point, in arrival order (not yet sorted in)
 	locks     map[uintptr]*lockState
-	LockWaits int // times a task had to wait for a modelled lock
+	chanWait  map[uintptr][]*Task // tasks parked until a package-level buffered channel can serve them
+	LockWaits int                 // times a task had to wait for a modelled lock
 	pending   *Task
 	rootG     uint64
 	aborted   atomic.Bool
@@ -323,6 +324,57 @@ func (s *Sim) lockHook(site string, lock interface{}, write bool, acquire bool) 
 	}
 }
 
+// chanHook keeps tasks from blocking for real on a package-level buffered
+// channel (created outside the bubble, hence invisible to synctest): while the
+// channel cannot serve the operation the task waits in the simulator and is
+// made schedulable again by the next completed operation on that channel.
+func (s *Sim) chanHook(site string, ch interface{}, send bool, before bool) {
+	g := goid()
+	if g == s.rootG {
+		return
+	}
+	v := reflect.ValueOf(ch)
+	if v.Kind() != reflect.Chan || v.IsNil() || v.Cap() == 0 {
+		return
+	}
+	id := v.Pointer()
+	s.mu.Lock()
+	t := s.tasks[g]
+	if t == nil {
+		s.mu.Unlock()
+		return
+	}
+	if s.chanWait == nil {
+		s.chanWait = map[uintptr][]*Task{}
+	}
+	if !before {
+		s.arrived = append(s.arrived, s.chanWait[id]...)
+		delete(s.chanWait, id)
+		s.mu.Unlock()
+		return
+	}
+	for {
+		blocked := (send && v.Len() == v.Cap()) || (!send && v.Len() == 0)
+		if !blocked {
+			s.mu.Unlock()
+			return
+		}
+		if s.aborted.Load() {
+			s.mu.Unlock()
+			runtime.Goexit()
+		}
+		s.LockWaits++
+		t.site = "chan-wait:" + site
+		s.chanWait[id] = append(s.chanWait[id], t)
+		s.mu.Unlock()
+		<-t.wake
+		if s.aborted.Load() {
+			runtime.Goexit()
+		}
+		s.mu.Lock()
+	}
+}
+
 // Yield is a yield point for harness code running on a task (SimReader etc.).
 func (s *Sim) Yield(site string) { s.hook(site) }
 
@@ -408,13 +460,14 @@ func (s *Sim) Run() {
 	simrt.SpawnHook = s.spawnHook
 	simrt.PanicHook = s.panicHook
 	simrt.LockHook = s.lockHook
+	simrt.ChanHook = s.chanHook
 	defer func() {
-		simrt.Hook, simrt.SpawnHook, simrt.PanicHook, simrt.LockHook = nil, nil, nil, nil
+		simrt.Hook, simrt.SpawnHook, simrt.PanicHook, simrt.LockHook, simrt.ChanHook = nil, nil, nil, nil, nil
 	}()
 	s.strat.init(s.T)
 	s.Strategy = s.strat.name()
 	for {
-		synctest.Wait()
+		s.wait()
 		s.mu.Lock()
 		if s.pending != nil {
 			s.pending = nil
@@ -544,11 +597,15 @@ func (s *Sim) Run() {
 			ps = append(ps, ls.waiters...)
 			ls.waiters = nil
 		}
+		for id, ws := range s.chanWait {
+			ps = append(ps, ws...)
+			delete(s.chanWait, id)
+		}
 		s.mu.Unlock()
 		for _, t := range ps {
 			t.wake <- struct{}{}
 		}
-		synctest.Wait()
+		s.wait()
 		s.mu.Lock()
 		n := len(s.parked) + len(s.arrived)
 		s.mu.Unlock()
@@ -580,4 +637,90 @@ func HashString(s string) uint64 {
 	h := fnv.New64a()
 	h.Write([]byte(s))
 	return h.Sum64()
+}
+
+// ---- stall watch -----------------------------------------------------------
+//
+// synctest.Wait only returns when every goroutine of the bubble is *durably*
+// blocked. A goroutine blocked on an object created outside the bubble (a
+// package-level channel used as a semaphore, say) or spinning without a yield
+// is not, and the scheduler would sit in Wait forever. A goroutine outside
+// every bubble watches for that with the real clock - which is used for
+// nothing else, and never for a scheduling decision.
+
+var (
+	waitingSim atomic.Pointer[Sim]
+	waitSeq    atomic.Uint64 // incremented whenever the scheduler enters or leaves Wait
+	inWait     atomic.Bool
+	stallOnce  sync.Once
+)
+
+// StallInfo describes a scheduler that has not reached a quiescent point.
+type StallInfo struct {
+	Sim           *Sim
+	Parked        int  // tasks parked at yields or waiting for modelled locks
+	ActorsEnabled bool // a simulator-owned action is enabled
+	ClientsDone   bool
+	Steps         int
+	Waited        time.Duration
+}
+
+func (s *Sim) wait() {
+	waitingSim.Store(s)
+	inWait.Store(true)
+	waitSeq.Add(1)
+	synctest.Wait()
+	inWait.Store(false)
+	waitSeq.Add(1)
+}
+
+// StartStallWatch starts the watcher (once per process, from outside any
+// bubble: it reads the real clock). onStall is called at most once, on the
+// watcher's goroutine, and is expected to end the process.
+func StartStallWatch(limit time.Duration, onStall func(StallInfo)) {
+	stallOnce.Do(func() {
+		go func() {
+			last := waitSeq.Load()
+			lastChange := time.Now()
+			for {
+				time.Sleep(250 * time.Millisecond)
+				cur := waitSeq.Load()
+				if cur != last || !inWait.Load() {
+					last, lastChange = cur, time.Now()
+					continue
+				}
+				waited := time.Since(lastChange)
+				if waited < limit {
+					continue
+				}
+				s := waitingSim.Load()
+				if s == nil {
+					continue
+				}
+				s.mu.Lock()
+				n := len(s.parked) + len(s.arrived)
+				for _, ls := range s.locks {
+					n += len(ls.waiters)
+				}
+				for _, ws := range s.chanWait {
+					n += len(ws)
+				}
+				done := true
+				for _, c := range s.clients {
+					if !c.Done {
+						done = false
+					}
+				}
+				s.mu.Unlock()
+				en := false
+				for _, a := range s.actors {
+					if !a.idle && a.Enabled() {
+						en = true
+					}
+				}
+				onStall(StallInfo{Sim: s, Parked: n, ActorsEnabled: en, ClientsDone: done, Steps: s.Steps, Waited: waited})
+				return
+			}
+		}()
+	})
 }
